@@ -202,7 +202,7 @@ func runC15(env *Env) {
 	n := 36
 	reps := 5
 	if env.Thorough() {
-		n, reps = 300, 20
+		n, reps = 150, 12
 	}
 	raceRun := os.Getenv("WV_C15_RACE") != ""
 	if raceRun {
